@@ -208,6 +208,13 @@ func (p *snapshotPool) RejectFormat(format uint32) {
 	}
 }
 
+// IsPeerRejected reports whether the peer has been rejected.
+func (p *snapshotPool) IsPeerRejected(peerID p2p.ID) bool {
+	p.Lock()
+	defer p.Unlock()
+	return p.peerBlacklist[peerID]
+}
+
 // RejectPeer rejects a peer. It will never be used again.
 func (p *snapshotPool) RejectPeer(peerID p2p.ID) {
 	if peerID == "" {
